@@ -149,6 +149,7 @@ class Ctx:
         self.broken = []          # names of theorems / ties that no longer check
         self._distinct = set()
         self.notes = []
+        self.level = "proof"
         self.repo = REPO
         self.replay_cases = None
         if replay:
@@ -302,7 +303,7 @@ class Ctx:
             tail = " no-failing-input-found" if v["no_input"] else ""
             print(f"VIOLATION property={self.prop} replay={path}{tail}")
         ev = {
-            "property_id": self.prop, "tier": self.tier, "seed": self.seed, "level": "proof",
+            "property_id": self.prop, "tier": self.tier, "seed": self.seed, "level": self.level,
             "coverage": cov, "assumptions": self.assumptions, "wall_s": round(wall, 2),
             "violations": len(self.violations),
             "known_findings": [s for s, _ in self.known_hits],
